@@ -671,6 +671,31 @@ class Models:
     def str_format(self, ip, s, *a, **k):
         return SStr(ip.ctx.fresh('fmt', z3.StringSort()))
 
+    # ---- text codecs: ASSUMED contract (see codec_functions): Enc(cs, s) is a byte string, Dec(cs, Enc(cs, s)) == s
+    def str_encode(self, ip, s, *args):
+        cs = args[0] if args else 'utf-8'
+        Enc, Dec, Encodable = codec_functions()[:3]
+        e = Enc(zs(cs), zs(s))
+        if not ip.ctx.branch(Encodable(zs(cs), zs(s))):
+            raise PyRaise(UnicodeEncodeError, ('codec', '', 0, 1, 'not encodable'))
+        ip.ctx.assume(dsl.All(0, z3.Length(e), lambda k: z3.And(e[k] >= 0, e[k] <= 255)))
+        ip.ctx.assume(Dec(zs(cs), e) == zs(s))
+        ip.ctx.assume(Decodable(zs(cs), e))
+        r = SSeq(e, bytes)
+        mark_bytes(ip.ctx, r)
+        return r
+
+    def sq_decode(self, ip, c, *args):
+        cs = args[0] if args else 'utf-8'
+        v = c.v if isinstance(c, Cell) else c
+        Enc, Dec, Encodable = codec_functions()[:3]
+        if not ip.ctx.branch(Decodable(zs(cs), v.e)):
+            raise PyRaise(UnicodeDecodeError, ('codec', b'', 0, 1, 'not decodable'))
+        t = Dec(zs(cs), v.e)
+        ip.ctx.assume(Encodable(zs(cs), t))
+        ip.ctx.assume(Enc(zs(cs), t) == v.e)
+        return SStr(t)
+
     def gen_method(self, o, name):
         if name == '__next__':
             return lambda ip, g: ip.gen_next(g)
@@ -916,16 +941,23 @@ class Models:
         return Cell(SSeq(v.e, v.pycls, v.ek), v.pycls)
 
     def sq_reverse(self, ip, c):
-        raise Unsupported('reverse of a list of unknown length (needs a contract)')
+        """list.reverse() on a list of unknown length: ASSUMED contract of the builtin:
+        same length, new[k] == old[len-1-k]"""
+        if not isinstance(c, Cell):
+            py_raise(AttributeError, 'reverse')
+        old = c.v.e
+        n = z3.Length(old)
+        r = ip.ctx.fresh('reversed', c.v.ek.seqsort)
+        ip.ctx.assume(z3.Length(r) == n)
+        ip.ctx.assume(dsl.All(0, n, lambda k: r[k] == old[n - 1 - k]))
+        c.v = SSeq(r, c.pycls, c.v.ek)
+        ip.ctx.add_pool(n - 1)
 
     def sq___getitem__(self, ip, c, k):
         return ip.subscript(c, k)
 
     def sq___add__(self, ip, c, other):
         return ip.seq_add(c, other)
-
-    def sq_decode(self, ip, c, *a):
-        raise Unsupported('decode of symbolic bytes (enable the codec model)')
 
     # TrackList (concrete-length list of objects)
     def tl_append(self, ip, t, x):
@@ -1074,6 +1106,27 @@ def mark_bytes(ctx, s):
 
 def seq_is_bytes(ctx, s):
     return s.e.get_id() in ctx.__dict__.get('bytes_marks', {})
+
+
+_CODEC = []
+
+
+def codec_functions():
+    """uninterpreted model of the text codecs.  ASSUMPTIONS (listed in the evidence):
+       Encodable(cs, s) => Enc(cs, s) consists of bytes and Dec(cs, Enc(cs, s)) == s
+       Decodable(cs, b) => Enc(cs, Dec(cs, b)) == b      (true for the single-byte and UTF codecs without BOM games)"""
+    if not _CODEC:
+        S = z3.StringSort()
+        _CODEC.extend([z3.Function('Enc', S, S, IntSeq), z3.Function('Dec', S, IntSeq, S),
+                       z3.Function('Encodable', S, S, z3.BoolSort())])
+    return _CODEC
+
+
+def Decodable(cs, b):
+    if len(_CODEC) < 4:
+        codec_functions()
+        _CODEC.append(z3.Function('Decodable', z3.StringSort(), IntSeq, z3.BoolSort()))
+    return _CODEC[3](cs, b)
 
 
 class HashVal:
